@@ -199,6 +199,51 @@ class PropertyCheck:
             self.scan = {"no_cursor_precondition": {"contracts_scanned": len(keys), "offending": bad}}
             if bad:
                 self.checker_errors.append("contracts assume a substream cursor: " + ", ".join(bad))
+        if self.spec.get("post_scan") == "while_loop_census":
+            # C13: every `while` loop of the package is either inside a function under a termination obligation of this check
+            # (measure, or full unrolling of a fixed shape) or listed as not covered; a loop in a function that has neither is reported
+            import ast as _ast
+            covered = set()
+            for key in keys:
+                con = REGISTRY.get(key)
+                if con is not None and not getattr(con, "lemma_src", None):
+                    covered.add((getattr(con, "source_key", None) or key.split("#")[0].split("[")[0]))
+                    covered.update(getattr(con, "also_covers", []))       # functions inlined into this proof (no contract of their own)
+            census, uncovered = [], []
+            pkg = os.path.join(REPO, "smpl_extract")
+            for d, _dirs, fs in os.walk(pkg):
+                for fn in fs:
+                    if not fn.endswith(".py"):
+                        continue
+                    path = os.path.join(d, fn)
+                    mod = os.path.relpath(path, REPO)[:-3].replace(os.sep, ".")
+                    try:
+                        tree = _ast.parse(open(path, encoding="utf-8").read())
+                    except SyntaxError:
+                        continue
+
+                    def visit(node, qual):
+                        for ch in _ast.iter_child_nodes(node):
+                            if isinstance(ch, _ast.ClassDef):
+                                visit(ch, qual + [ch.name])
+                            elif isinstance(ch, (_ast.FunctionDef, _ast.AsyncFunctionDef)):
+                                fkey = f"{mod}:{'.'.join(qual + [ch.name])}"
+                                for w in _ast.walk(ch):
+                                    if isinstance(w, _ast.While):
+                                        ok = fkey in covered
+                                        census.append({"function": fkey, "line": w.lineno, "under_termination_obligation": ok})
+                                        if not ok:
+                                            uncovered.append(f"{fkey}@L{w.lineno}")
+                                visit(ch, qual + [ch.name])
+                    visit(tree, [])
+            accepted = set(self.spec.get("while_loops_not_covered", []))
+            new = [u for u in uncovered if u.split("@")[0] not in accepted]
+            self.scan = dict(getattr(self, "scan", {}) or {})
+            self.scan["while_loop_census"] = {"loops": len(census), "under_obligation": sum(1 for c in census if c["under_termination_obligation"]),
+                                              "not_covered": uncovered, "detail": census}
+            for u in new:
+                self.undecided.append({"function": u, "why": "while loop in a function without a termination obligation"})
+                self.say(f"UNDECIDED obligation={u}:termination reason=while-loop-without-termination-obligation")
         # bounded stand-ins
         from concurrent.futures import ThreadPoolExecutor
         todo = []
